@@ -123,3 +123,112 @@ Proof.
     intros p Hp. simpl in Hp. apply existsb_exists in Hp. destruct Hp as [s [Hs Hps]].
     destruct (Hvb s Hs) as [z [Hz Hbz]]. specialize (Hbz p Hps). specialize (M3 z Hz). pord.
 Qed.
+
+(* ------------------------------------------------------------------ a finite sup / inf is attained or approached *)
+Lemma below_germ : forall a v, num_ok a = true -> npos a <p PFin v 0 -> npos a <p PFin v (-1).
+Proof.
+  intros a v Ha H. rewrite PosO.lt_iff in *. destr_num a; simpl in *.
+  - destruct (inject_Z z ?= v)%Q; simpl in *; try discriminate; reflexivity.
+  - destruct (n # d ?= v)%Q; simpl in *; try discriminate; reflexivity.
+  - apply num_ok_inf in Ha. destruct Ha; subst; simpl in *; try discriminate; reflexivity.
+Qed.
+Lemma above_germ : forall a v, num_ok a = true -> PFin v 0 <p npos a -> PFin v 1 <p npos a.
+Proof.
+  intros a v Ha H. rewrite PosO.lt_iff in *. rewrite pos_cmp_antisym in *. destr_num a; simpl in *.
+  - destruct (inject_Z z ?= v)%Q; simpl in *; try discriminate; reflexivity.
+  - destruct (n # d ?= v)%Q; simpl in *; try discriminate; reflexivity.
+  - apply num_ok_inf in Ha. destruct Ha; subst; simpl in *; try discriminate; reflexivity.
+Qed.
+Lemma npos_qval : forall a v, qval a = Some v -> npos a = PFin v 0.
+Proof. intros a v H. destruct a; simpl in *; try discriminate; inversion H; reflexivity. Qed.
+
+Definition sup_reached (S : sv) (v : Q) : bool := In_set (PAt v) S || In_set (PNear v false false) S.
+Definition inf_reached (S : sv) (v : Q) : bool := In_set (PAt v) S || In_set (PNear v true false) S.
+
+Theorem sup_tight : forall S x v, wf_set S = true -> sup S = Ok x -> qval x = Some v -> sup_reached S v = true.
+Proof.
+  induction S as [| | | | | | | s e lo ro | l | l IHF | l IHF | u IHu c IHc] using sv_ind';
+    intros x v Hwf H Hv; simpl in H; try discriminate; try (inversion H; subst; discriminate Hv).
+  - (* Interval: the rational points just below the end *)
+    inversion H; subst. pose proof (wf_interval_inv _ _ _ _ Hwf) as [Hs [He Hlt]].
+    unfold sup_reached. apply orb_true_iff. right. simpl. rewrite in_interval_pos. simpl ppos.
+    rewrite (npos_qval x v Hv) in *.
+    pose proof (below_germ s v Hs Hlt) as Hb.
+    assert (Hg : PFin v (-1) <p PFin v 0).
+    { apply PosO.lt_iff. simpl. assert (E : (v ?= v)%Q = Eq) by (apply Qcmp_Eq; reflexivity). rewrite E. reflexivity. }
+    destruct (pos_cmp_spec (npos s) (PFin v (-1))) as [[-> C1]|[[-> C1]|[-> C1]]]; try (exfalso; pord).
+    destruct (pos_cmp_spec (PFin v 0) (PFin v (-1))) as [[-> C2]|[[-> C2]|[-> C2]]]; try (exfalso; pord).
+    reflexivity.
+  - (* FiniteSet: the maximum is a member *)
+    simpl in Hwf. destruct l as [|a t]; [discriminate|]. simpl in H. inversion H; subst.
+    simpl in Hwf. apply andb_prop in Hwf. destruct Hwf as [Ha Ht].
+    destruct (fold_nmax_spec t a Ha Ht) as [M1 [M2 _]].
+    unfold sup_reached. apply orb_true_iff. left. cbn [In_set]. unfold in_finite. apply existsb_exists.
+    exists (fold_left nmax t a). split; [exact M2|].
+    rewrite cmp_np_pos, (npos_qval _ v Hv). cbn [ppos]. rewrite pos_cmp_refl. reflexivity.
+  - (* Union: the member whose sup is the maximum *)
+    apply wf_union_inv in Hwf. destruct Hwf as [Hne Hl].
+    destruct (collect_res (map sup l)) as [w| | |] eqn:E; try discriminate.
+    apply collect_res_ok in E.
+    assert (Hw : forall y, In y w -> exists s, In s l /\ sup s = Ok y).
+    { clear H Hne IHF Hl. revert w E. induction l as [|s t IHl]; intros w E; inversion E; subst.
+      - intros y [].
+      - intros y' [<-|Hin]; [exists s; split; [left; reflexivity|assumption]|].
+        match goal with Hf : Forall2 _ (map sup t) ?l0 |- _ => destruct (IHl l0 Hf y' Hin) as [s' [Hs' Hy']] end.
+        exists s'. split; [right; exact Hs'|exact Hy']. }
+    assert (Hwok : forallb num_ok w = true).
+    { apply forallb_forall. intros y Hy. destruct (Hw y Hy) as [s [Hs Hys]].
+      exact (proj1 (sup_bound s y (forallb_In wf_set l s Hl Hs) Hys)). }
+    destruct w as [|y ys]; [discriminate|]. simpl in H. inversion H; subst.
+    simpl in Hwok. apply andb_prop in Hwok. destruct Hwok as [Hy Hys].
+    destruct (fold_nmax_spec ys y Hy Hys) as [_ [M2 _]].
+    destruct (Hw _ M2) as [s [Hs Hsup]].
+    rewrite Forall_forall in IHF. specialize (IHF s Hs _ v (forallb_In wf_set l s Hl Hs) Hsup Hv).
+    unfold sup_reached in *. apply orb_true_iff in IHF. apply orb_true_iff.
+    destruct IHF as [I|I]; [left|right]; simpl; apply existsb_exists; exists s; split; assumption.
+Qed.
+
+Theorem inf_tight : forall S x v, wf_set S = true -> inf S = Ok x -> qval x = Some v -> inf_reached S v = true.
+Proof.
+  induction S as [| | | | | | | s e lo ro | l | l IHF | l IHF | u IHu c IHc] using sv_ind';
+    intros x v Hwf H Hv; simpl in H; try discriminate; try (inversion H; subst; discriminate Hv).
+  - (* Naturals: 1 *) inversion H; subst. simpl in Hv. inversion Hv; subst. reflexivity.
+  - (* Naturals0: 0 *) inversion H; subst. simpl in Hv. inversion Hv; subst. reflexivity.
+  - (* Interval: the rational points just above the start *)
+    inversion H; subst. pose proof (wf_interval_inv _ _ _ _ Hwf) as [Hs [He Hlt]].
+    unfold inf_reached. apply orb_true_iff. right. simpl. rewrite in_interval_pos. simpl ppos.
+    rewrite (npos_qval x v Hv) in *.
+    pose proof (above_germ e v He Hlt) as Hb.
+    assert (Hg : PFin v 0 <p PFin v 1).
+    { apply PosO.lt_iff. simpl. assert (E : (v ?= v)%Q = Eq) by (apply Qcmp_Eq; reflexivity). rewrite E. reflexivity. }
+    destruct (pos_cmp_spec (PFin v 0) (PFin v 1)) as [[-> C1]|[[-> C1]|[-> C1]]]; try (exfalso; pord).
+    destruct (pos_cmp_spec (npos e) (PFin v 1)) as [[-> C2]|[[-> C2]|[-> C2]]]; try (exfalso; pord).
+    reflexivity.
+  - (* FiniteSet *)
+    simpl in Hwf. destruct l as [|a t]; [discriminate|]. simpl in H. inversion H; subst.
+    simpl in Hwf. apply andb_prop in Hwf. destruct Hwf as [Ha Ht].
+    destruct (fold_nmin_spec t a Ha Ht) as [M1 [M2 _]].
+    unfold inf_reached. apply orb_true_iff. left. cbn [In_set]. unfold in_finite. apply existsb_exists.
+    exists (fold_left nmin t a). split; [exact M2|].
+    rewrite cmp_np_pos, (npos_qval _ v Hv). cbn [ppos]. rewrite pos_cmp_refl. reflexivity.
+  - (* Union *)
+    apply wf_union_inv in Hwf. destruct Hwf as [Hne Hl].
+    destruct (collect_res (map inf l)) as [w| | |] eqn:E; try discriminate.
+    apply collect_res_ok in E.
+    assert (Hw : forall y, In y w -> exists s, In s l /\ inf s = Ok y).
+    { clear H Hne IHF Hl. revert w E. induction l as [|s t IHl]; intros w E; inversion E; subst.
+      - intros y [].
+      - intros y' [<-|Hin]; [exists s; split; [left; reflexivity|assumption]|].
+        match goal with Hf : Forall2 _ (map inf t) ?l0 |- _ => destruct (IHl l0 Hf y' Hin) as [s' [Hs' Hy']] end.
+        exists s'. split; [right; exact Hs'|exact Hy']. }
+    assert (Hwok : forallb num_ok w = true).
+    { apply forallb_forall. intros y Hy. destruct (Hw y Hy) as [s [Hs Hys]].
+      exact (proj1 (inf_bound s y (forallb_In wf_set l s Hl Hs) Hys)). }
+    destruct w as [|y ys]; [discriminate|]. simpl in H. inversion H; subst.
+    simpl in Hwok. apply andb_prop in Hwok. destruct Hwok as [Hy Hys].
+    destruct (fold_nmin_spec ys y Hy Hys) as [_ [M2 _]].
+    destruct (Hw _ M2) as [s [Hs Hinf]].
+    rewrite Forall_forall in IHF. specialize (IHF s Hs _ v (forallb_In wf_set l s Hl Hs) Hinf Hv).
+    unfold inf_reached in *. apply orb_true_iff in IHF. apply orb_true_iff.
+    destruct IHF as [I|I]; [left|right]; simpl; apply existsb_exists; exists s; split; assumption.
+Qed.
